@@ -63,3 +63,8 @@ func SimMinerIterate(minerType byte, state *account.AccountDB) []*types.Miner {
 	}
 	return out
 }
+
+// SimRefundHeight is the release height the refund manager assigns to a refund made at height now.
+func SimRefundHeight(now, left uint64, minerType byte, minerId []byte) uint64 {
+	return RefundManagerImpl.getRefundHeight(now, left, minerType, minerId, "evm")
+}
